@@ -408,3 +408,106 @@ def m_clip(interp, a, a_min, a_max, out=None, **kw):
         out._assign(res)
         return out
     return res
+
+
+# --------------------------------------------------------------------------- any / all / dot / det
+
+class SQuantBool(SBool):
+    """np.any(a) / np.all(a) over a boolean array of symbolic size: a fresh boolean with on-demand
+    instances of its defining property"""
+    __slots__ = ("arr", "is_any")
+
+    def __init__(self, t, arr, is_any):
+        super().__init__(t)
+        self.arr = arr
+        self.is_any = is_any
+
+    def instance(self, idx):
+        """facts at one index: not any => not a[idx]; all => a[idx]"""
+        c = ctx()
+        e = self.arr.elem(*idx)
+        inb = self.arr.in_bounds(idx)
+        if self.is_any:
+            c.assume(core.implies(And(Not(self), inb), Not(e)))
+        else:
+            c.assume(core.implies(And(self, inb), e))
+
+
+@model(np.any, np.all)
+def m_any_all(interp, a, *args, **kw):
+    raise Unsupported("np.any/np.all dispatch")
+
+
+def _any_all(interp, a, is_any, args, kw):
+    c = ctx()
+    if not isinstance(a, SArr):
+        if contains_sym(a):
+            vals = interp.iterate(a)
+            return (core.Or if is_any else core.And)(*vals)
+        return _native(np.any if is_any else np.all, a, *args, **kw)
+    if args or kw:
+        raise Unsupported("np.any/np.all with axis")
+    if all(isinstance(n, int) for n in a.shape):
+        import itertools
+        vals = [a.elem(*idx) for idx in itertools.product(*[range(n) for n in a.shape])]
+        if not vals:
+            return not is_any
+        return (core.Or if is_any else core.And)(*vals)
+    c.trust("np.any / np.all: existential / universal over the elements")
+    b = c.bool("any" if is_any else "all")
+    # witness (skolem) for the existential direction
+    w = tuple(c.int("w") for _ in a.shape)
+    ew = a.elem(*w)
+    if is_any:
+        c.assume(core.implies(b, And(a.in_bounds(w), ew)))
+    else:
+        c.assume(core.implies(Not(b), And(a.in_bounds(w), Not(ew))))
+    r = SQuantBool(b.t, a, is_any)
+    c.ghost.setdefault("quant", []).append(r)
+    return r
+
+
+MODELS_ANY = model(np.any)(lambda interp, a, *args, **kw: _any_all(interp, a, True, args, kw))
+MODELS_ALL = model(np.all)(lambda interp, a, *args, **kw: _any_all(interp, a, False, args, kw))
+
+
+@model(np.dot)
+def m_dot(interp, a, b):
+    if not isinstance(a, SArr) and not isinstance(b, SArr):
+        return _native(np.dot, a, b)
+    if not isinstance(a, SArr):
+        a = m_asarray(interp, a)
+    if not isinstance(b, SArr):
+        b = m_asarray(interp, b)
+    c = ctx()
+    c.trust("np.dot: sum over the last axis of a and the first (or only) axis of b (real regime)")
+    k = a.shape[-1]
+    if not isinstance(k, int):
+        raise Unsupported("np.dot with symbolic inner dimension")
+    if not interp.truth(b.shape[0] == k):
+        raise RaiseSig(ValueError("shapes not aligned"))
+    if a.ndim == 2 and b.ndim == 2:
+        return SArr.from_fn(lambda i, j: _sum([a.elem(i, t) * b.elem(t, j) for t in range(k)]), (a.shape[0], b.shape[1]), np.float64)
+    if a.ndim == 2 and b.ndim == 1:
+        return SArr.from_fn(lambda i: _sum([a.elem(i, t) * b.elem(t) for t in range(k)]), (a.shape[0],), np.float64)
+    raise Unsupported("np.dot ranks")
+
+
+def _sum(xs):
+    r = xs[0]
+    for x in xs[1:]:
+        r = r + x
+    return r
+
+
+@model(np.linalg.det)
+def m_det(interp, a):
+    if not isinstance(a, SArr):
+        return _native(np.linalg.det, a)
+    if a.shape != (3, 3):
+        raise Unsupported("determinant of a non-3x3 symbolic matrix")
+    ctx().trust("np.linalg.det of a 3x3 matrix: the cofactor expansion (real regime; floating-point error not modelled)")
+    e = lambda i, j: a.elem(i, j)
+    return (e(0, 0) * (e(1, 1) * e(2, 2) - e(1, 2) * e(2, 1))
+            - e(0, 1) * (e(1, 0) * e(2, 2) - e(1, 2) * e(2, 0))
+            + e(0, 2) * (e(1, 0) * e(2, 1) - e(1, 1) * e(2, 0)))
